@@ -140,6 +140,15 @@ def asset_dump(report: report_model.FullReport, asset: str, rows: List[Dict[str,
                 "basis": num(cellv(row, 7)),
             }
         )
+    # ---- the same lines on the 'Summary' sheet (all assets in one table; this asset's lines)
+    summary_sheet: Optional[List[Dict[str, Any]]] = None
+    if report.summary_name() in report.sheets:
+        _s, sdata = report.table_rows(report.summary_name(), "Yearly Gain / Loss Summary", 0)
+        summary_sheet = [
+            {"year": int(num(cellv(row, 0)) or 0), "asset": str(cellv(row, 1)), "type": type_of(cellv(row, 4)), "long": str(cellv(row, 3)) == "LONG", "gain": num(cellv(row, 2)), "crypto": amount11(cellv(row, 5)), "fiat": num(cellv(row, 6)), "basis": num(cellv(row, 7))}
+            for _i, row in sdata
+            if str(cellv(row, 1)) == asset
+        ]
     # ---- balances
     balances: List[Dict[str, Any]] = []
     holder_totals: Dict[str, Fraction] = {}
@@ -182,7 +191,7 @@ def asset_dump(report: report_model.FullReport, asset: str, rows: List[Dict[str,
         )
     if problems:
         return {"ok": False, "error_type": "ReportNotRelatable", "error": "; ".join(problems[:3]), "internal": False}
-    return {"ok": True, "fractions": fractions, "taxable": taxable, "yearly": yearly, "balances": balances, "holder_totals": holder_totals, "listed": listed, "ins": ins, "ins_rel": Fraction(1, 10**11)}
+    return {"ok": True, "fractions": fractions, "taxable": taxable, "yearly": yearly, "balances": balances, "holder_totals": holder_totals, "listed": listed, "ins": ins, "ins_rel": Fraction(1, 10**11), "summary_sheet": summary_sheet}
 
 
 def evaluate_assets(case: Dict[str, Any], tag: str, judge: Any, failure_is_violation: Tuple[str, ...] = ()) -> Any:
